@@ -106,7 +106,7 @@ def build(desc, want_impl=True):
             a_star = rA.argsup(u)
             b_star0 = rB0.argsup(-u)
             cB = a_star - p * u - b_star0
-            truth.update(overlap=None, pen=p, u=u)
+            truth.update(overlap=None, pen=p, u=u, a_star=a_star)
         elif kind == "deep":
             pB0, dB = rB0.anchor()
             a_star = rA.argsup(u)
@@ -118,6 +118,20 @@ def build(desc, want_impl=True):
     L = max(1.0, rA.size(), rB.size(), float(np.linalg.norm(rA.centre())), float(np.linalg.norm(rB.centre())),
             float(np.linalg.norm(rA.centre() - rB.centre())))
     truth["L"] = L
+    if kind == "pen":
+        # certify the overlap by an inscribed ball: a point with a ball of radius rho inside both shapes is a common point of depth rho
+        best, bp = 0.0, None
+        pA, _ = rA.anchor()
+        pB, _ = rB.anchor()
+        cands = [truth["a_star"] - f * truth["pen"] * u for f in (0.25, 0.5, 0.75)]
+        cands += [(1 - lam) * pA + lam * pB for lam in np.linspace(0.0, 1.0, 21)]
+        cands += [truth["a_star"] - 0.5 * truth["pen"] * u + lam * (q - truth["a_star"]) for q in (pA, pB) for lam in (0.1, 0.25, 0.5)]
+        for q in cands:
+            r = min(rA.inball(q), rB.inball(q))
+            if r > best:
+                best, bp = r, q
+        if best > 0.0:
+            truth.update(overlap=True, common=bp, depthA=best, depthB=best, depth=best)
     same = kind in ("identical", "same")
     spec = {"A": (ta, sc.SIZES[ta][desc["sa"]], sc.pose(desc["oa"], cA), mA),
             "B": ((ta, sc.SIZES[ta][desc["sa"]], sc.pose(desc["oa"], cA), mA) if same else
